@@ -1,3 +1,4 @@
+import Pl.Summary
 import Pl.Run2Spec
 import Pl.IsMerge
 
@@ -51,6 +52,20 @@ theorem isMerge_iff :
     (h0 : ∀ a A', A = a :: A' → ¬ IsC c a),
     isMerge (A ++ x :: B) A.length c = true ↔ ∃ y ∈ A ++ B, IsC c y :=
   @Pl.isMerge_iff
+end
+
+section
+open Pl
+
+/-- the run summary: committer time of the first planned commit, number of input commits, and the newest committer
+time among the replayed commits -/
+theorem run2_summary :
+    ∀ (items : List Item) (times : List Int) (n : Nat) (plan : List Action)
+    (log : List Ev) (b e : Int) (c : Nat) (fin : List (Nat × Nat))
+    (h : run2 items times n plan = ⟨log, .ok (b, e, c, fin)⟩),
+    b = times.getD ((plan.headD ⟨.emerge, 0, []⟩).commit) 0 ∧ c = n ∧
+    (∀ t ts, commitTimes times plan = t :: ts → e = ts.foldl max t) :=
+  @Pl.run2_summary
 end
 
 end Props.C14
